@@ -20,7 +20,7 @@ func init() {
 		ID:          "C11",
 		Rule:        "cases: documents with 0..3 keys and services plus sibling members sharing a name prefix; (a) the complete grid of single RFC 6902 operations: 6 kinds x path x from over protected members, their elements and sub-members, prefix siblings, escaped tokens, root, '/', pointers without a leading slash or with leading garbage, trailing slashes, array indices 0 / - / out of range; (b) random sequences of 2..3 operations (e.g. copy then modify below the copy), alone and after other patches. Oracle: invariant - whenever patch validation accepts and ApplyPatches succeeds, the publicKey and service members are deeply equal before and after, and so are the keys/services reported by the typed document accessors (Document.PublicKeys, DIDDocument.PublicKeys/Services) and the key and service sections (verificationMethod, authentication, assertionMethod, keyAgreement, capabilityDelegation, capabilityInvocation, service) of the resolved DID document. distinct = distinct (kind, path class, from class, accepted?, applied?) tuples.",
 		Assumptions: []string{"deep JSON equality of the two protected members is the observable for 'altered'"},
-		Require:     []string{"validated", "validated-and-applied", "refused-by-validator", "grid", "accessor-views", "resolved-views"},
+		Require:     []string{"validated", "validated-and-applied", "refused-by-validator", "grid", "accessor-views", "resolved-views", "two-ietf-patches-around-dedicated-actions"},
 		Run:         runC11,
 	})
 }
@@ -179,6 +179,32 @@ func runC11(r *fw.Runner) {
 					before = []interface{}{gen.PAddKeys(gen.RandDocKey(rr, "key1")), gen.PAddServices(gen.RandService(rr, "svc1"))}
 				}
 				c11Check(c, composer, doc, before, ops, "seq|"+sig)
+				if i%3 == 0 {
+					// ietf patch, dedicated key / service actions, ietf patch - all in one call
+					var mid []interface{}
+					for _, k := range rr.Perm(4)[:rr.Range(1, 3)] {
+						switch k {
+						case 0:
+							mid = append(mid, gen.PAddKeys(gen.RandDocKey(rr, fw.Pick(rr, []string{"key1", "midkey"}))))
+						case 1:
+							ids := []string{"ghost"}
+							if l, ok := doc["publicKey"].([]interface{}); ok && len(l) > 0 {
+								ids = append(ids, fmt.Sprint(l[0].(map[string]interface{})["id"]))
+							}
+							mid = append(mid, gen.PRemoveKeys(ids...))
+						case 2:
+							mid = append(mid, gen.PAddServices(gen.RandService(rr, fw.Pick(rr, []string{"svc1", "midsvc"}))))
+						case 3:
+							ids := []string{"ghost"}
+							if l, ok := doc["service"].([]interface{}); ok && len(l) > 0 {
+								ids = append(ids, fmt.Sprint(l[len(l)-1].(map[string]interface{})["id"]))
+							}
+							mid = append(mid, gen.PRemoveServices(ids...))
+						}
+					}
+					ops2 := []interface{}{map[string]interface{}{"op": "add", "path": fw.Pick(rr, c11FreePaths[:8]), "value": c11Value(rr)}}
+					c11CheckSeq(c, composer, doc, before, ops, mid, ops2, "seq3|"+sig)
+				}
 			}
 		})
 	}
@@ -195,6 +221,12 @@ func protectedView(doc map[string]interface{}) map[string]interface{} {
 }
 
 func c11Check(c *fw.Case, composer *doccomposer.DocumentComposer, doc map[string]interface{}, before []interface{}, ops []interface{}, sig string) {
+	c11CheckSeq(c, composer, doc, before, ops, nil, nil, sig)
+}
+
+// c11CheckSeq applies, in ONE ApplyPatches call: before (dedicated actions), the ietf patch ops, mid (dedicated actions), and - when
+// ops2 is given - a second ietf patch. The keys and services afterwards must be what the dedicated actions alone produce.
+func c11CheckSeq(c *fw.Case, composer *doccomposer.DocumentComposer, doc map[string]interface{}, before []interface{}, ops []interface{}, mid []interface{}, ops2 []interface{}, sig string) {
 	c.Evals(1)
 	p := gen.PJSON(ops...)
 	lp, err := sut.ToPatch(p)
@@ -207,16 +239,28 @@ func c11Check(c *fw.Case, composer *doccomposer.DocumentComposer, doc map[string
 		c.Sig(sig, "refused")
 		return
 	}
+	var p2 map[string]interface{}
+	if ops2 != nil {
+		p2 = gen.PJSON(ops2...)
+		lp2, err := sut.ToPatch(p2)
+		if err != nil || patchvalidator.Validate(lp2) != nil {
+			c.Count("refused-by-validator", 1)
+			c.Sig(sig, "refused")
+			return
+		}
+		c.Count("two-ietf-patches-around-dedicated-actions", 1)
+	}
 	c.Count("validated", 1)
 	// alias cycles kill the process inside json-patch (C19 known finding): do not feed them
-	if _, aerr := oracle.ApplyRFC6902(doc, ops, oracle.Quirks{AliasCopy: true, MoveCopySet: true}); oracle.IsCycleErr(aerr) {
+	_, aerr1 := oracle.ApplyRFC6902(doc, ops, oracle.Quirks{AliasCopy: true, MoveCopySet: true}) // the document is serialized after each ietf patch
+	if _, aerr := oracle.ApplyRFC6902(doc, append(append([]interface{}{}, ops...), ops2...), oracle.Quirks{AliasCopy: true, MoveCopySet: true}); oracle.IsCycleErr(aerr) || oracle.IsCycleErr(aerr1) {
 		c.Count("excluded:alias-cycle (C19 known finding)", 1)
 		return
 	}
 	start := doc
-	if before != nil {
-		// state after the preceding dedicated patches, per the model
-		s2, err := oracle.ApplyPatchesModel(doc, before, oracle.Quirks{})
+	if before != nil || mid != nil {
+		// state after the dedicated patches alone, per the model
+		s2, err := oracle.ApplyPatchesModel(doc, append(append([]interface{}{}, before...), mid...), oracle.Quirks{})
 		if err != nil {
 			c.Inconclusive("model")
 			return
@@ -228,7 +272,10 @@ func c11Check(c *fw.Case, composer *doccomposer.DocumentComposer, doc map[string
 		c.Inconclusive("conversion")
 		return
 	}
-	all := append(append([]interface{}{}, before...), p)
+	all := append(append(append([]interface{}{}, before...), p), mid...)
+	if p2 != nil {
+		all = append(all, p2)
+	}
 	lps, err := sut.ToPatches(all)
 	if err != nil {
 		c.Inconclusive("conversion")
